@@ -14,6 +14,9 @@ use crate::rng::Rng;
 pub const ACCOUNTS: &[&str] = &[
     "Assets:Bank", "Assets:Cash", "Assets:Broker", "Expenses:Food", "Expenses:Rent", "Income:Salary", "Equity:Opening",
     "Liabilities:Card",
+    // names that have another account's name as a prefix (a sibling, a child of an account that is
+    // posted to itself)
+    "Assets:Bank2", "Expenses:Food:Snacks",
 ];
 pub const COMMODITIES: &[&str] = &["USD", "EUR", "JPY", "AAPL"];
 
